@@ -5,6 +5,14 @@ HERE = os.path.dirname(os.path.abspath(__file__))
 ALL = ["C%02d" % i for i in range(1, 21)]
 
 CHECKS = {
+ "C09": dict(level="exploration", design="DESIGN.md 3/C09",
+   text="history + executable model on a stand-alone ConfigActor (namespace actor injected): seeded histories of ConfigAdd / ConfigRemove / SetFullValue / SetTmpValue over 3 tenants x 3 groups x 6 dataIds (hot keys > 100 publishes, empty / large / non-ASCII contents), GET + history after every op, every ~20 ops a sweep paging every endpoint-producible filter family at page sizes 1/2/7/100; reference model in Rust (lenient where the property is silent); failing histories shrunk by re-running the real code; thinner second layer through the real binary's HTTP API",
+   note="parameter shapes no endpoint can produce are diagnostics, not violations; fuzzy filters = substring containment",
+   technique="runtime monitoring of recorded histories against a reference model + differential HTTP layer"),
+ "C10": dict(level="exploration", design="DESIGN.md 3/C10",
+   text="long-poll part: the harness is the client of ConfigCmd::LISTENER on a stand-alone ConfigActor; ALL message orders of small scenarios (<=3 listeners, <=3 keys, <=4 changes of 6 kinds) are enumerated, larger ones sampled, a real-time family runs on the actor's own 500 ms tick; gRPC part: real binary + real bi-stream connections (vh grpc-client) subscribing / un-listening / disconnecting while configs are published and removed over HTTP and gRPC; offline oracle: every differing md5 answered immediately, every content-changing publish / remove of a listened key reaches every pending listener / connected subscriber (2 s), time-outs within deadline + tick + slack",
+   note="spurious notifications allowed; late answers re-run 3x solo before they count; HTTP long-poll endpoint and cluster not exercised",
+   technique="runtime monitoring with exhaustive message-order enumeration (small scenarios) + black-box monitoring of real connections"),
  "C13": dict(level="exploration", design="DESIGN.md 3/C13",
    text="timeline monitor on real wall-clock time: ~400 instance timelines per run (register, heartbeat periods 0.5-2.4 s, silence, resume around the time-outs, replace, ephemeral<->persistent flips, HTTP<->gRPC owner switches, take-over from a failed node) against a stand-alone NamingActor with its own 2 s tick and H=3 s / T=4 s, observed every 250 ms; oracle from RECORDED call/ack times with ambiguity bands; plus a real node over HTTP (both tiers) and a real 3-node cluster with owner kill (thorough)",
    note="bounded-progress restatement (bounds in the evidence); default 15 s/30 s constants not run; observations inside the slack bands ignored; late findings of runs with scheduling lag > 400 ms dropped and counted",
